@@ -463,7 +463,9 @@ def bufferLoop : Nat → World → Nat → World
         let n := w.leafCount p
         match tryList givePart w (w.sortedDown x) p with
         | (w, true) =>
-          let w := w.modDev x (fun d => { d with level := d.level - n, buf := rest })
+          -- `self._buffer.pop(0)`: the head as it is NOW (a hand-over that loops back into this very
+          -- buffer has appended an entry in the meantime)
+          let w := w.modDev x (fun d => { d with level := d.level - n, buf := d.buf.drop 1 })
           let w := w.addRec (.level x w.now (w.dev x).level)
           bufferLoop f w x
         | (w, false) => w
